@@ -124,7 +124,7 @@ theorem lookup_returns_verified_live_layer (T : Truth) (h : List Op) (o : Oracle
   · rw [he] at hl; cases hl
   · rw [hl'] at hl; cases hl
     obtain ⟨ls, hi, hin⟩ := hI'.member _ _ _ hlay
-    exact ⟨hI'.key _ _ _ hlay, hlay, hI'.live _ _ _ hlay, ls, l'.digest, hi, hin⟩
+    exact ⟨hI'.key _ _ _ hlay, hlay, hI'.live _ _ _ hlay, ls, _, hi, hin⟩
 
 /-! ## Use counts -/
 
@@ -213,17 +213,17 @@ theorem in_use_layer_kept_along_history (T : Truth) (h : List Op) (r t : Nat) (l
   induction h' generalizing s with
   | nil => exact ⟨hl, hI.live _ _ _ hl⟩
   | cons op ops ih =>
-    have h1 : run T s (op :: ops) = run T (step T s op).1 ops := by simp [run]
+    have h1 : run T s (op :: ops) = run T (step T s op).1 ops := rfl
     rw [h1]
     obtain ⟨c, hc, hc0⟩ := hpos [op] (by simp) (by simp)
-    have hc' : cnt (step T s op).1 r t = some c := by simpa [run] using hc
+    have hc' : cnt (step T s op).1 r t = some c := hc
     obtain ⟨hl1, _⟩ := in_use_never_released T s hI op r t l c hl hc' hc0
     apply ih _ (step_inv T s op hI) hl1
     intro p hp hne
     have : (op :: p) <+: (op :: ops) := by
       obtain ⟨q, hq⟩ := hp; exact ⟨q, by simp [← hq]⟩
     obtain ⟨c2, h2, h3⟩ := hpos (op :: p) this (by simp)
-    exact ⟨c2, by simpa [run] using h2, h3⟩
+    exact ⟨c2, h2, h3⟩
 
 /-- In every reachable state `Done()` has been called on no cached layer, and instance
 identities are not shared between cache entries. -/
@@ -302,9 +302,12 @@ theorem releaseBuggy_breaks_lookup_after_release :
     (lookup T0 hy (runBuggy T0 init [.lookup hy 0 20, .use 0 20, .release 0 20]) 0 20).2 = .err := by
   decide
 
-/-- Old `release`: a second release drives the count to −1 (`count_nonneg` is false for it). -/
+/-- Old `release`: the counter entry stays at 0 after the last release and a second release
+drives it to −1 (`count_nonneg` is false for it). -/
 theorem releaseBuggy_count_negative :
-    (stepBuggy T0 (runBuggy T0 init [.use 0 20, .release 0 20]) (.release 0 20)).2 = .count (-1) := by
+    cnt (runBuggy T0 init [.lookup hy 0 20, .use 0 20, .release 0 20]) 0 20 = some 0 ∧
+    cnt (runBuggy T0 init [.lookup hy 0 20, .use 0 20, .release 0 20, .release 0 20]) 0 20
+      = some (-1) := by
   decide
 
 /-- Old `release`, second witness of DESIGN.md: a sibling layer still in use. -/
